@@ -697,18 +697,18 @@ def run(ctx):
     SH = 600 if quick else 1200
     for k in range(0, len(ritems), SH):
         shards.append(("rd%d" % (k // SH), "rd", k, head + [
-            "Definition cases := [%s]." % ";\n".join(ritems[k:k + SH]),
+            "Definition cases : list ((N * bytes * N * msg * bytes) * N) := [%s]." % ";\n".join(ritems[k:k + SH]),
             "Definition MRA := Eval vm_compute in (mismatches_from rd_ok cases 0, mismatches_from rd_alloc_ok cases 0).",
             "Definition MR := Eval vm_compute in fst MRA.", "Print MR.",
             "Definition MA := Eval vm_compute in snd MRA.", "Print MA."]))
     vlist = "[" + ";".join(str(v) for v in vers["vers"]) + "]"
     clist = "[" + ";".join(str(v) for v in vers["consts"][:6]) + "]"
     shards.append(("misc", "misc", 0, head + [
-        "Definition wcases := [%s]." % ";\n".join(witems),
+        "Definition wcases : list (N * msg * option bytes) := [%s]." % ";\n".join(witems),
         "Definition MW := Eval vm_compute in mismatches_from write_case_ok wcases 0.", "Print MW.",
-        "Definition bcases := [%s]." % ";\n".join(bitems),
+        "Definition bcases : list ((N * bytes * N) * (N * N * N)) := [%s]." % ";\n".join(bitems),
         "Definition MB := Eval vm_compute in mismatches_from big_ok bcases 0.", "Print MB.",
-        "Definition kcases := [%s]." % ";\n".join(kitems),
+        "Definition kcases : list (bytes * bytes * bytes) := [%s]." % ";\n".join(kitems),
         "Definition MK := Eval vm_compute in mismatches_from blockid_case_ok kcases 0.", "Print MK.",
         "Definition MV := Eval vm_compute in mismatches_from (fun c : list N * list N => bytes_eqb (fst c) (snd c))",
         "  [(accepted_inbound_versions, %s); ([v031; v032; v033; v200; v_unknown; header_len], %s)] 0." % (vlist, clist), "Print MV."]))
@@ -718,7 +718,7 @@ def run(ctx):
               "  if cls =? 1000 then negb (hs_case_ok (v, l, st, 0)) else hs_case_ok c."]
     for k in range(0, len(hitems), HSH):
         shards.append(("hs%d" % (k // HSH), "hs", k, head + hs_def + [
-            "Definition hcases := [%s]." % ";\n".join(hitems[k:k + HSH]),
+            "Definition hcases : list (N * local * status * N) := [%s]." % ";\n".join(hitems[k:k + HSH]),
             "Definition MH := Eval vm_compute in mismatches_from hs_ok hcases 0.", "Print MH."]))
     inb_def = ["From Verif Require Import P2P.Inbound.",
                "Definition in_class (r : inbound_result) : N :=",
@@ -731,7 +731,7 @@ def run(ctx):
                "  in_class (inbound dec mx l [v] s) =? cls."]
     if fitems:
         shards.append(("inb", "inb", 0, head + inb_def + [
-            "Definition fcases := [%s]." % ";\n".join(fitems),
+            "Definition fcases : list (N * local * status * bytes * N * N) := [%s]." % ";\n".join(fitems),
             "Definition MI := Eval vm_compute in mismatches_from inb_ok fcases 0.", "Print MI."]))
     if deep:
         B = lambda x: "true" if x else "false"
@@ -755,7 +755,7 @@ def run(ctx):
             "  (if kind =? 1 then let '(st2, r2) := add_block H valid st1 (mk_block [] [0]) in",
             "     Bool.eqb gen_cached (match r2 with ErrCached => true | _ => false end) && Bool.eqb gen_stored (present digest st2)",
             "   else true).",
-            "Definition ccases := [%s]." % ";\n".join(citems),
+            "Definition ccases : list (N * bytes * bytes * (bool * bool * bool) * (bool * bool)) := [%s]." % ";\n".join(citems),
             "Definition MC := Eval vm_compute in mismatches_from chain_ok ccases 0.", "Print MC.",
             "Definition ncases : list (list N * N) := [%s]." % ";\n".join(nitems),
             "Definition MN := Eval vm_compute in mismatches_from negotiate_case_ok ncases 0.", "Print MN."]))
